@@ -97,7 +97,7 @@ func GenPatch(buckets, names []string, condPct int, ro bool) *rapid.Generator[Op
 			}
 		}
 		if ro && rapid.IntRange(0, 3).Draw(t, "ro") == 0 {
-			op.RO = map[string]string{rapid.SampledFrom([]string{"generation", "metageneration", "size", "md5Hash"}).Draw(t, "rok"): rapid.SampledFrom([]string{"5", "77"}).Draw(t, "rov")}
+			op.RO = map[string]string{rapid.SampledFrom([]string{"generation", "metageneration", "size", "md5Hash"}).Draw(t, "rok"): rapid.SampledFrom([]string{"5", "77", "@cond", "@cond", "1", "2"}).Draw(t, "rov")}
 		}
 		if rapid.IntRange(0, 19).Draw(t, "badbody") == 0 {
 			op.BadBody = rapid.SampledFrom([]string{"{", "[1]", "\"x\"", "{\"metadata\": 5}"}).Draw(t, "bb")
@@ -127,6 +127,25 @@ func ConflictFree(names []string) []string {
 		}
 		if ok {
 			out = append(out, n)
+		}
+	}
+	return out
+}
+
+// PrefixNames returns the proper '/'-prefixes of the given names that are not
+// names of the set themselves: directories of the file store, never objects.
+func PrefixNames(names []string) []string {
+	have := map[string]bool{}
+	for _, n := range names {
+		have[n] = true
+	}
+	var out []string
+	for _, n := range names {
+		for i := 1; i < len(n); i++ {
+			if n[i] == '/' && !have[n[:i]] {
+				have[n[:i]] = true
+				out = append(out, n[:i])
+			}
 		}
 	}
 	return out
